@@ -85,6 +85,7 @@ func cmdRun(args []string) {
 	verbose := fs.Bool("v", false, "verbose")
 	jsonOut := fs.String("json", "", "write the run result here")
 	known := fs.String("known", "", "comma-separated open known-finding ids")
+	events := fs.Bool("events", false, "print extracted event paths (event mode)")
 	params := paramFlag{}
 	fs.Var(params, "param", "harness parameter NAME=INT (repeatable)")
 	fs.Parse(args)
@@ -108,6 +109,15 @@ func cmdRun(args []string) {
 		os.Exit(3)
 	}
 	printRun(rr, m, *verbose)
+	if *events {
+		for _, p := range rr.EventPaths {
+			var parts []string
+			for _, ev := range p {
+				parts = append(parts, ev.String())
+			}
+			fmt.Println("   EVENTS:", strings.Join(parts, " "))
+		}
+	}
 	if *jsonOut != "" {
 		data, _ := json.MarshalIndent(rr, "", " ")
 		os.WriteFile(*jsonOut, data, 0o644)
